@@ -17,6 +17,7 @@ import SfModel.Basic
 import SfModel.Small2
 import SfModel.Nist
 import SfModel.Voc
+import SfModel.Xi
 import Driver.Util
 import Driver.Small2
 open Sf (hexBytes hexFixed parseHexBytes parseHexNat Byte)
@@ -60,9 +61,20 @@ def voc : Container :=
     parse := Sf.Voc.parse,
     quant := fun sr => Sf.Voc.quant { codec := 5, ch := 1, sr := sr } }   -- the 8-bit divisor; the 16-bit one is tied through the header bytes
 
+/-- `name=<hex>` is the 20-byte tracker-name field (PACKAGE_NAME-PACKAGE_VERSION); `old=1` selects the rule before the
+    repair of KF-XI-HEADER (xi_close left the header alone) -/
+def xi : Container :=
+  { fmtOf := fun toks =>
+      let c : Sf.Xi.Cfg := { codec := hexKey toks "codec", software := match kvGet toks "name" with | some h => parseHexBytes h | none => List.replicate 20 0x20 }
+      let F := if kvNat toks "old" 0 = 1 then Sf.Xi.fmtOld c else Sf.Xi.fmt c
+      if endianOf toks < 4 ∧ kvNat toks "ch" 1 = 1 ∧ decide c.wf then some (F, openW F, close F) else none,   -- any byte order request: xi_open forces little endian
+    parse := Sf.Xi.parse,
+    quant := Sf.Xi.quant }
+
 def containerOf (name : String) : Option Container :=
   match name with
   | "nist" => some nist
+  | "xi" => some xi
   | "voc" => some voc
   | _ => none
 
